@@ -5,6 +5,7 @@ From BT Require Import Base.Prelude Heap.Forest Spec.PForest.
 Theorem C01_init : forall n names seps, wf_b (init n names seps) = true.
 Proof.
   intros n names seps. unfold wf_b, init; cbn.
-  apply andb_true_iff; split; apply forallb_forall; intros x _; reflexivity.
+  apply andb_true_iff; split; apply forallb_forall; intros x _; [reflexivity|].
+  destruct n; reflexivity.
 Qed.
 Print Assumptions C01_init.
